@@ -185,6 +185,8 @@ def handler(payload):
                 out.append(["l", [["s", r.name], ["i", 0], ["s", v] if isinstance(v, str) else ["i", v]]])
         return ["l", out]
 
+    stash = {}
+
     def run_op(regs, lay, op):
         k = op[0]
         tgt = lambda name: regs.find_reg(name, include_group_regs=True)
@@ -231,7 +233,12 @@ def handler(payload):
         if k == 15:
             return ["b", regs.export().hex()]
         if k == 16:
-            return cfg_out(regs, regs.get_config(bool(op[1])))
+            cfg = regs.get_config(bool(op[1]))
+            stash["cfg"] = cfg
+            return cfg_out(regs, cfg)
+        if k == 22:      # the same object loads the configuration it returned last
+            regs.load_yml_config(stash["cfg"])
+            return ["l", []]
         if k == 17:
             return ["l", [["s", n] for n in regs.get_reg_names(None, bool(op[1]))]]
         if k == 18:
@@ -268,6 +275,7 @@ def handler(payload):
             results.append({"build_error": b[1:]})
             continue
         regs = b[1]
+        stash.clear()
         res = {"built": describe(regs), "endian_uniform": endian_uniform(regs), "snap0": snap(regs), "trace": []}
         for op in case["ops"]:
             r = guarded(lambda: run_op(regs, lay, op), seconds=20)
